@@ -122,6 +122,8 @@ def impl_main():
             out.append(dict(skip="recursion"))
         except (Budget, MemoryError):
             out.append(dict(exn="Diverges"))
+        except NameError:
+            out.append(dict(exn="NameError"))        # UnboundLocalError is a NameError: a name read before it was bound (the model's lookup failure)
         except Exception as e:  # noqa
             out.append(dict(exn=type(e).__name__))
     print(json.dumps(out))
